@@ -143,3 +143,21 @@ mutant("c05-minor-patch-swapped", ["C05"], (L, "        .map(|(major, _, minor, 
 mutant("c05-build-before-core-sep", ["C05"], (L, "    (number, literal(\".\"), number, literal(\".\"), number)", "    (number, literal(\".\"), number, alt((literal(\".\"), literal(\"-\"))), number)"))
 neutral("extras-alt-reordered", ["C05"], (L, "            Parser::map((pre_release, build), Extras::ReleaseAndBuild),\n            Parser::map(pre_release, Extras::Release),\n            Parser::map(build, Extras::Build),", "            Parser::map(build, Extras::Build),\n            Parser::map((pre_release, build), Extras::ReleaseAndBuild),\n            Parser::map(pre_release, Extras::Release),"))
 neutral("ident-class-matches", ["C05"], (L, "|x: char| x.is_ascii_alphanumeric() || x == '-'", "|x: char| matches!(x, '0'..='9' | 'a'..='z' | 'A'..='Z' | '-')"))
+
+# ---- C11
+mutant("c11-min-to-max", ["C11"], (R, "        self.0.iter().filter_map(BoundSet::min_version).min()", "        self.0.iter().filter_map(BoundSet::min_version).max()"))
+mutant("c11-unchecked-candidate", ["C11"], (R, "        candidates.into_iter().find(|v| self.satisfies(v))", "        candidates.into_iter().next()"))
+mutant("c11-patch-plus-two", ["C11", "C06"], (R, "                    next.patch += 1;\n                    let release = next.clone();", "                    next.patch += 2;\n                    let release = next.clone();"))
+mutant("c11-first-alternative-only", ["C11"], (R, "        self.0.iter().filter_map(BoundSet::min_version).min()", "        self.0.iter().filter_map(BoundSet::min_version).next()"))
+
+# ---- C12 / C13 / C15
+mutant("c12-display-dot-for-build", ["C12", "C18"], (L, "        for (i, ident) in self.build.iter().enumerate() {\n            if i == 0 {\n                write!(f, \"+\")?;", "        for (i, ident) in self.build.iter().enumerate() {\n            if i == 0 {\n                write!(f, \".\")?;"))
+mutant("c12-display-no-hyphen", ["C12"], (L, "            if i == 0 {\n                write!(f, \"-\")?;\n            } else {\n                write!(f, \".\")?;\n            }\n            write!(f, \"{}\", ident)?;\n        }\n\n        for (i, ident) in self.build", "            if i == 0 {\n                write!(f, \"\")?;\n            } else {\n                write!(f, \".\")?;\n            }\n            write!(f, \"{}\", ident)?;\n        }\n\n        for (i, ident) in self.build"))
+mutant("c12-ident-display-prefix", ["C12"], (L, "            Identifier::AlphaNumeric(s) => write!(f, \"{}\", s),", "            Identifier::AlphaNumeric(s) => write!(f, \"a{}\", s),"))
+mutant("c12-build-separator-comma", ["C12"], (L, "    preceded(literal(\"+\"), separated(1.., identifier, literal(\".\")))", "    preceded(literal(\"+\"), separated(1.., identifier, literal(\",\")))"))
+mutant("c13-display-swapped-ops", ["C13"], (R, "            (Lower(Unbounded), Upper(Including(v))) => write!(f, \"<={}\", v),\n            (Lower(Unbounded), Upper(Excluding(v))) => write!(f, \"<{}\", v),", "            (Lower(Unbounded), Upper(Including(v))) => write!(f, \"<{}\", v),\n            (Lower(Unbounded), Upper(Excluding(v))) => write!(f, \"<={}\", v),"))
+mutant("c13-display-two-sided-order", ["C13"], (R, "write!(f, \">{} <={}\", v, v2),", "write!(f, \">{} <={}\", v2, v),"))
+mutant("c13-display-join-single-bar", ["C13"], (R, "            if i > 0 {\n                write!(f, \"||\")?;", "            if i > 0 {\n                write!(f, \"|\")?;"))
+mutant("c13-display-exact-as-range", ["C13"], (R, "            (Lower(Including(v)), Upper(Including(v2))) if v == v2 => write!(f, \"{}\", v),", "            (Lower(Including(v)), Upper(Including(v2))) if v == v2 => write!(f, \"~{}\", v),"))
+mutant("c15-intersect-swaps-sides", ["C15", "C07"], (R, "        let upper: &Bound = std::cmp::min(&self.upper, &other.upper);", "        let upper: &Bound = std::cmp::min(&self.upper, &self.upper);"))
+neutral("display-write-str", ["C13"], (R, "            (Lower(Unbounded), Upper(Unbounded)) => write!(f, \"*\"),", "            (Lower(Unbounded), Upper(Unbounded)) => f.write_str(\"*\"),"))
